@@ -253,6 +253,36 @@ func c12Units(tier string, seed int64) []Unit {
 	}
 	// through the public Check with a time limit that is orders of magnitude more than needed:
 	// -rapid.shrinktime=5s on the virtual clock (1 ms per invocation) = 5000 invocations for a one-draw property
+	// the single-word minimizer on its own, over the whole 64-bit range: for a threshold property x >= T it ends, and ends
+	// at T, from every start u >= T - starts and thresholds in the top half (where u+T overflows 64 bits), at powers of
+	// two +-1, at bit patterns that clearing bits cannot turn into T
+	units = append(units, Unit{Name: "C12/single-word-minimizer-over-the-64-bit-range", Run: func(c *Ctx) {
+		pts := []uint64{0, 1, 2, 3, 1000, 0x5555555555555555, 0x8000000000000000, 0x8000000000000001, 0xaaaaaaaaaaaaaaab, 0xd000000000000001, 0xe75a80e8f8e699bc, 0xfffffffffffffffe, 0xffffffffffffffff, 0xffff0000ffff0001, 0xc123456789abcdef}
+		for k := uint(1); k < 64; k++ {
+			pts = append(pts, 1<<k-1, 1<<k, 1<<k+1)
+		}
+		for _, T := range pts {
+			for _, u := range pts {
+				if u < T {
+					continue
+				}
+				calls := 0
+				got := rapid.VerifMinimize(u, func(x uint64) bool { calls++; return x >= T })
+				c.R.Evals++
+				c.R.States++
+				c.R.Transitions += int64(calls)
+				if u == T || T == 0 {
+					c.Outcome(fmt.Sprintf("trivial calls<=%d", calls/50*50+50), false)
+				} else {
+					c.Outcome(fmt.Sprintf("calls<=%d", calls/50*50+50), true)
+				}
+				if got != T {
+					c.Violate(Violation{Sig: "C12 single-word-minimizer-not-the-boundary", Detail: fmt.Sprintf("minimize(%#x, x >= %#x) = %#x after %d evaluations", u, T, got, calls), Replay: map[string]any{"engine": "minimize", "u": u, "T": T}})
+					return
+				}
+			}
+		}
+	}})
 	units = append(units, Unit{Name: "C12/through-Check/shrinktime=5s-is-enough", Run: func(c *Ctx) {
 		pick := map[string]bool{"Int16 x>=100": true, "Int16 x<=-257": true, "Int8 x>=127": true, "Uint8 x>=200": true, "Int64 x>=1099511627776": true,
 			"Int64 x<=-4611686018427387905": true, "Uint64 x>=9223372036854775808": true, "Uint32 x>=65537": true, "Int32 x<=-1": true, "Uint16 x>=1": true}
